@@ -1499,3 +1499,17 @@ TABLE["C11"] += [
     B("ignored-method-reserves-an-id", {"H14"},
       (MW, "            if method_name in self.ignore_methods:\n                continue\n", "            if method_name in self.ignore_methods:\n                for _ in method:\n                    self._update_wrapper_id()\n                continue\n")),
 ]
+
+# enum lookup ranges over the whole scope (C06 M13)
+_GE_OLD = "            global_enums = [\n                member.name for member in class_.parent.content\n                if isinstance(member, parser.Enum)\n            ]\n            return arg_type.typename.name in global_enums\n"
+TABLE["C06"] += [
+    B("global-enum-search-stops-at-the-class", {"M13"},
+      (MX, _GE_OLD, "            for member in class_.parent.content:\n                if member is class_:\n                    break\n                if isinstance(member, parser.Enum) and member.name == arg_type.typename.name:\n                    return True\n            return False\n")),
+    B("global-enum-search-over-the-first-members", {"M13"},
+      (MX, "member.name for member in class_.parent.content\n", "member.name for member in class_.parent.content[:10]\n")),
+    B("class-enum-search-skips-the-first", {"M13"},
+      (MX, "class_enums = [enum.name for enum in class_.enums]", "class_enums = [enum.name for enum in class_.enums[1:]]")),
+    N("global-enum-search-as-a-loop", (MX, _GE_OLD, "            for member in class_.parent.content:\n                if isinstance(member, parser.Enum) and member.name == arg_type.typename.name:\n                    return True\n            return False\n")),
+    N("global-enum-search-with-any", (MX, _GE_OLD, "            return any(isinstance(member, parser.Enum) and member.name == arg_type.typename.name\n                       for member in class_.parent.content)\n")),
+    N("global-enum-search-break-when-found", (MX, _GE_OLD, "            found = False\n            for member in class_.parent.content:\n                if isinstance(member, parser.Enum) and member.name == arg_type.typename.name:\n                    found = True\n                    break\n            return found\n")),
+]
